@@ -297,8 +297,34 @@ def run(ctx, idx):
         sorted_pairs(ctx, idx, *res[name])
     for name, errs in GUARDS.items():
         guards(ctx, idx, res[name][0], res[name][1], errs)
+    ctx.rule("C08.o", "CvtToFuzzy maps the TRUE threshold to +1 and the FALSE threshold to -1 whatever the direction: `Direction` only chooses which data extreme stands in for an omitted threshold - it is not applied to the ramp afterwards (mirroring the result is the HighToLow conversion only when both thresholds are the defaults; with a threshold given it maps the true threshold to -1).")
+    cfz = idx.cls("mpilot.libraries.eems.fuzzy", "CvtToFuzzy")
+    cfx = cfz.methods.get("execute") if cfz is not None else None
+    if cfx is None:
+        raise AnalysisError("C08.o: CvtToFuzzy.execute vanished")
+    dnames = {a_ for a_, ks_ in _kw_aliases_local(cfx).items() if "Direction" in ks_}
+    n_dir = 0
+    bad_dir = None
+    for n_ in own_nodes(cfx.node):
+        if isinstance(n_, (ast.If, ast.IfExp)) and (K.names_in(n_.test) & dnames or "Direction" in K.src(n_.test)):
+            n_dir += 1
+            if isinstance(n_, ast.If):
+                for st_ in n_.body + n_.orelse:
+                    for x_ in ast.walk(st_):
+                        if isinstance(x_, (ast.Assign, ast.AugAssign)):
+                            tg_ = x_.targets if isinstance(x_, ast.Assign) else [x_.target]
+                            if any(isinstance(t_, ast.Name) and t_.id in ("result",) or (isinstance(t_, ast.Name) and any(isinstance(r_, ast.Return) and t_.id in K.names_in(r_) for r_ in ast.walk(cfx.node))) for t_ in tg_) \
+                                    and not any("hreshold" in (t_.id if isinstance(t_, ast.Name) else "") for t_ in tg_):
+                                bad_dir = bad_dir or x_
+    ctx.ob("C08.o", "%s::direction-selects-defaults-only" % cfx.key, K.rel(cfx), (bad_dir.lineno if bad_dir is not None else cfx.node.lineno), bad_dir is None,
+           "Direction is read only where the default thresholds are chosen" if bad_dir is None else
+           "`%s` applies the direction to the ramp itself: with TrueThreshold / FalseThreshold given and Direction = HighToLow the true threshold now maps to -1 and the false one to +1 (and CvtFromFuzzy with the same thresholds is no longer the inverse)" % K.src(bad_dir)[:50])
+    ctx.floor("C08.o", "tests of Direction in CvtToFuzzy", n_dir, 1)
+    ctx.rule("C08.n", "A conversion is applied cell by cell, for grids of every rank: no positional indexing / reshaping of data axes in a conversion body (C05.b's findings for the conversion commands - e.g. one component of numpy.where() used as an index selects whole rows of a 2-D grid, so cells land on another segment of the curve).")
     for name in CONVERSIONS:
         d, r = res[name]
+        pos_ = [f for f in r.findings if f[0] in ("equivariance", "shape")]
+        ctx.ob("C08.n", "%s.execute::cell-by-cell" % d.key, d.module.rel, pos_[0][1] if pos_ else d.execute.node.lineno, not pos_, "only cell-wise operations on the grid" if not pos_ else pos_[0][2])
         dtype_rule(ctx, "C08.d", d, r)
         R.uses_all_inputs(ctx, "C08.e", d, r)
         R.leaves_inputs_alone(ctx, "C08.j", d, r, "the first conversion of a field is right, but the field itself now holds converted values, so every later conversion or use of it starts from the wrong raw data")
@@ -573,6 +599,23 @@ def _eval_dedupe(idx, fi, node):
                     sit, "[%s]" % ", ".join(raw_g), "[%s]" % ", ".join(nor_g), "[%s]" % ", ".join("r%d" % i for i in keep), "[%s]" % ", ".join(want_nor),
                     "an extreme loses the end value of the curve" if len(nor_g) == len(want_nor) else "raw and normal values no longer pair up / a coinciding point is left in (a repeated raw value)"))
     return probs, first_line
+
+
+def _kw_aliases_local(fi):
+    """{local name: {kwargs keys}} for names bound from kwargs[...] / kwargs.get(...)"""
+    out = {}
+    kw = fi.node.args.kwarg.arg if fi.node.args.kwarg else None
+    for n in own_nodes(fi.node):
+        if isinstance(n, ast.Assign) and len(n.targets) == 1 and isinstance(n.targets[0], ast.Name):
+            v = n.value
+            key = None
+            if isinstance(v, ast.Subscript) and isinstance(v.value, ast.Name) and v.value.id == kw and isinstance(v.slice, ast.Constant):
+                key = v.slice.value
+            if isinstance(v, ast.Call) and isinstance(v.func, ast.Attribute) and v.func.attr == "get" and isinstance(v.func.value, ast.Name) and v.func.value.id == kw and v.args and isinstance(v.args[0], ast.Constant):
+                key = v.args[0].value
+            if key is not None:
+                out.setdefault(n.targets[0].id, set()).add(key)
+    return out
 
 
 def mean_to_mid_dedupe(ctx, idx, rule, consequence=""):
